@@ -104,7 +104,7 @@ class Jail:
         """Returns (exec log: list of argv lists, changed paths: set, bash exit status or None on timeout, stderr)."""
         self.reset()
         before = self.snapshot()
-        env = {"PATH": self.bin, "STUB_DIR": self.ctl, "STUB_RC": rc_mode, "HOME": self.root, "LC_ALL": "C.UTF-8"}
+        env = {"PATH": self.bin, "STUB_DIR": self.ctl, "STUB_RC": rc_mode, "HOME": self.root, "LC_ALL": "C.UTF-8", "DD": ".."}  # DD: a variable whose value leaves the directory
         p = subprocess.Popen([BASH, "--norc", "--noprofile", "-c", program], cwd=self.cwd, env=env,
                              stdin=subprocess.DEVNULL, stdout=subprocess.PIPE, stderr=subprocess.PIPE,
                              start_new_session=True)
